@@ -13,6 +13,9 @@ selftest/refactor/B*.diff were produced by this script and each keeps the librar
   invert      `if c: A else: B` -> `if not (c): B else: A`
   tryfinally  every function body wrapped in try: ... finally: pass
   acquire     `with <lock>:` -> `<lock>.acquire(); try: ... finally: <lock>.release()`
+  lockalias   `with self.x:` -> `held_v_ = self.x; with held_v_:`
+  revmethods  the methods of every class in reverse order (__init__ kept first)
+  methodlocal `obj.m(args)` -> `bound_v_ = obj.m; bound_v_(args)`   (NOT silent: see selftest/refactor/B-notes.md)
 Used to look for false alarms of the checks on edits that cannot change behaviour."""
 import ast, os, sys, symtable, re
 REPO='/repo'
@@ -244,6 +247,65 @@ def acquire(src):
     return apply_all(src,pick,make)
 out=sys.argv[1]; os.makedirs(out,exist_ok=True)
 for name,tr in (('invert',invert),('tryfinally',tryfinally),('acquire',acquire)):
+    d=os.path.join(out,name); shutil.rmtree(d,ignore_errors=True)
+    subprocess.run(['rsync','-a','--exclude','.git','--exclude','__pycache__','--exclude','docs',REPO+'/',d+'/'],check=True)
+    n=0
+    for root,dirs,files in os.walk(os.path.join(d,'more_executors')):
+        for f in files:
+            if f.endswith('.py'):
+                p=os.path.join(root,f); s=open(p).read()
+                try:
+                    t=tr(s); compile(t,p,'exec')
+                except Exception as e:
+                    print('skip',name,p,e); continue
+                if t!=s: n+=1
+                open(p,'w').write(t)
+    print(name,'files changed',n)
+
+
+# ---- fourth family
+def lockalias(src):
+    def pick(n):
+        return isinstance(n,ast.With) and len(n.items)==1 and n.items[0].optional_vars is None and isinstance(n.items[0].context_expr,ast.Attribute) and n.body[0].lineno>n.lineno
+    def make(n,lines):
+        ind=' '*n.col_offset
+        e=seg(lines,n.items[0].context_expr)
+        body=lines[n.lineno:n.body[-1].end_lineno]
+        return 'held_v_ = %s\n%swith held_v_:\n%s' % (e, ind, '\n'.join(body))
+    return apply_all(src,pick,make)
+def methodlocal(src):
+    def pick(n):
+        return isinstance(n,ast.Expr) and isinstance(n.value,ast.Call) and isinstance(n.value.func,ast.Attribute) and isinstance(n.value.func.value,(ast.Name,ast.Attribute)) and n.lineno==n.end_lineno and not (isinstance(n.value.func.value,ast.Call))
+    def make(n,lines):
+        ind=' '*n.col_offset
+        f=seg(lines,n.value.func)
+        if 'super' in f or f.startswith('metrics.') : return None
+        call=seg(lines,n.value)
+        rest=call[len(f):]
+        return 'bound_v_ = %s\n%sbound_v_%s' % (f, ind, rest)
+    return apply_all(src,pick,make)
+def revmethods(src):
+    tree=ast.parse(src); lines=src.split('\n')
+    for cls in sorted([n for n in ast.walk(tree) if isinstance(n,ast.ClassDef)], key=lambda n:-n.lineno):
+        fns=[n for n in cls.body if isinstance(n,ast.FunctionDef)]
+        if len(fns)<2 or any(not isinstance(n,ast.FunctionDef) for n in cls.body[cls.body.index(fns[0]):]): continue
+        # blocks: from (first decorator line or def line) to end_lineno, plus preceding blank lines kept as separators
+        blocks=[]
+        for f in fns:
+            a=min([d.lineno for d in f.decorator_list]+[f.lineno])
+            # include comment lines directly above
+            while a-2>=0 and lines[a-2].strip().startswith('#'): a-=1
+            blocks.append((a,f.end_lineno))
+        ok=all(blocks[i][1]<blocks[i+1][0] for i in range(len(blocks)-1))
+        if not ok: continue
+        texts=['\n'.join(lines[a-1:b]) for a,b in blocks]
+        keep_first=1 if fns[0].name=='__init__' else 0
+        order=texts[:keep_first]+list(reversed(texts[keep_first:]))
+        new='\n\n'.join(order).split('\n')
+        lines[blocks[0][0]-1:blocks[-1][1]]=new
+    return '\n'.join(lines)
+out=sys.argv[1]; os.makedirs(out,exist_ok=True)
+for name,tr in (('lockalias',lockalias),('revmethods',revmethods),('methodlocal',methodlocal)):
     d=os.path.join(out,name); shutil.rmtree(d,ignore_errors=True)
     subprocess.run(['rsync','-a','--exclude','.git','--exclude','__pycache__','--exclude','docs',REPO+'/',d+'/'],check=True)
     n=0
